@@ -141,4 +141,37 @@ theorem evalLevels_congr (bit : Nat → Nat) (dk : Nat → Bytes) :
     rw [htl, htl]
     exact this
 
+theorem extractBit_le (bits : Bytes) (i : Nat) : extractBit bits i ≤ 1 := by
+  unfold extractBit; omega
+
+/-- results of accepted trees, for ANY message -/
+theorem evalTrees_ok_inv (bits : Bytes) (dks : List Bytes) :
+    ∀ (l : List (Nat × TreeMsg)) (r : List (Nat × List Bytes)),
+      evalTrees (m := Id) h sid bits dks l = .ok r →
+      r.length = l.length ∧ ∀ (k : Nat) (p : Nat × TreeMsg), l[k]? = some p →
+        ∃ x, r[k]? = some x ∧ evalTree (m := Id) h sid (treeBit bits p.1) (treeDk dks p.1) p.2 = some x := by
+  intro l
+  induction l with
+  | nil => intro r hr; rw [evalTrees_nil] at hr; cases hr; exact ⟨rfl, by simp⟩
+  | cons p rest ih =>
+    intro r hr
+    obtain ⟨j, msg⟩ := p
+    rw [evalTrees_cons] at hr
+    cases hev : evalTree (m := Id) h sid (treeBit bits j) (treeDk dks j) msg with
+    | none => rw [hev] at hr; cases hr
+    | some x =>
+      rw [hev] at hr
+      simp only at hr
+      cases hrest : evalTrees (m := Id) h sid bits dks rest with
+      | error e => rw [hrest] at hr; cases hr
+      | ok rs =>
+        rw [hrest] at hr
+        cases hr
+        obtain ⟨hl, hall⟩ := ih rs hrest
+        refine ⟨by simp [hl], ?_⟩
+        intro k p hp
+        cases k with
+        | zero => simp at hp; subst hp; exact ⟨x, by simp, hev⟩
+        | succ k => simp at hp; simpa using hall k p hp
+
 end SlVerif.Pprf
